@@ -21,7 +21,7 @@ from . import graphs as G
 
 EXTREME = [1e-300, -1e-300, 1e300, -1e300, 5e-324, 2.2250738585072014e-308, -0.0, 0.1, 1.0 / 3.0, 2.0 ** 53, -(2.0 ** 53) - 2, 123456789.0, 1e-17, 0.30000000000000004,
            1e22, 1e16, 9007199254740993.0, 6.02214076e23, -273.15, 1e-7]
-IDS = [0, 1, 2, 3, 7, -1, -42, 99999, 2 ** 31, 2 ** 40 + 5, -2 ** 35, 123456789012]
+IDS = [0, 1, 2, 3, 7, -1, -42, 99999, 2 ** 31, 2 ** 40 + 5, -2 ** 35, 123456789012, 2 ** 53 + 1, 2 ** 62 + 3, (ord('x') << 56) | 7, -2 ** 60 - 1]
 
 
 def bits(x):
